@@ -21,7 +21,7 @@ func (i JsUnixTime) MarshalJSON() ([]byte, error) {
 // UnmarshalJSON unmarshal json
 func (i *JsUnixTime) UnmarshalJSON(b []byte) error {
 	lb := len(b)
-	if lb <= 2 {
+	if lb <= 2 || b[0] != '"' || b[lb-1] != '"' {
 		return ErrInvalidInt64Js
 	}
 
@@ -50,7 +50,7 @@ func (i JsNanoTime) MarshalJSON() ([]byte, error) {
 // UnmarshalJSON unmarshal json
 func (i *JsNanoTime) UnmarshalJSON(b []byte) error {
 	lb := len(b)
-	if lb <= 2 {
+	if lb <= 2 || b[0] != '"' || b[lb-1] != '"' {
 		return ErrInvalidInt64Js
 	}
 
